@@ -26,28 +26,28 @@ What is proved
     that document's key tuple (no stale, dangling or misplaced leaf – so `section.Range` never meets an id that is not
     stored, and a scan returns only stored documents, which the residual `match` then filters). This is the soundness
     half of `index_inv`; the completeness half (every admitted document has its leaf) is in `C11.index_inv_full`.
-Stated but not proved (kept as `def … : Prop`; exercised by the correspondence and the index-set differential oracle):
-`C11.partial_applicable_sound_full`, `C11.index_inv_full`, `C11.find_index_independent_full`.
+  * `C11.index_inv` – every history: each index holds exactly the stored documents its filter admits, under their key
+    tuples (soundness and completeness);
+  * `C11.partial_applicable_sound` – the applicability rule of `explain` (commit 70b5313) is sound: an applicable partial
+    index contains every document matching the query;
+  * `C11.find_scan_exact` – after every history (`GoodOps`) `find` returns exactly the documents `refMatch` lets through,
+    in id order, whatever indexes exist;
+  * `C11.find_index_independent` – two histories with the same data operations and any non-unique `Index`/`Unindex`
+    operations interleaved anywhere (or none) answer every data operation alike and store the same documents.
+Hypotheses that remain, and why: index keys are field names and index filters well-formed (`GoodOp`; a key starting with
+`$` is unsound in the code itself); the interleaved indexes are non-unique (a unique index is meant to change the outcome
+of the calls it rejects – C12 covers those).
 -/
 import Uniflow.Proofs.Plan
-import Uniflow.Proofs.Consistent
+import Uniflow.Proofs.Indep
 
 open Uniflow.Value Uniflow.Store Uniflow.Query Uniflow.Plan Uniflow.Index
 
 /-- Every key list, every filter, every document: a document the reference evaluation lets through lies within the
 bounds of every level of `newExecutionPlan(keys, filter)`, provided the keys are field names (do not start with `$`). -/
 theorem C11.plan_sound (ks : List Val) (f : Val) (d : PList) (hks : ∀ k ∈ ks, FieldKey k)
-    (h : refMatch (some (.map d)) f = true) : within (plan ks f) d = true := by
-  induction ks with
-  | nil => simp [plan, within]
-  | cons k ks ih =>
-    obtain ⟨key, rfl, hk⟩ := hks k (by simp)
-    simp only [plan]
-    cases hp : planV (.str key) f with
-    | none => simp [within]
-    | some b =>
-      simp only [within, Bool.and_eq_true]
-      exact ⟨(inb_iff _ _).mpr (planV_sound hk f b h hp), ih fun k' hk' => hks k' (by simp [hk'])⟩
+    (h : refMatch (some (.map d)) f = true) : within (plan ks f) d = true :=
+  plan_within ks f d hks h
 
 /-- `{$or: [{a: {$gte: 7}}, {a: {$lte: 2}}]}` over the key `a`: both branches are bounded on one side only, the cover is
 unbounded, no plan – and with a sibling condition `a > 1` the plan keeps exactly that lower bound. The document
@@ -92,8 +92,73 @@ def C11.index_inv_full : Prop :=
       (∀ e ∈ idx.entries, ∃ d, getDoc s.docs e.2 = some d ∧ idx.admits d = true ∧ tupCmp e.1 (idx.tuple d) = 0) ∧
       (∀ p ∈ s.docs, idx.admits p.2 = true → ∃ e ∈ idx.entries, cmp e.2 p.1 = 0 ∧ tupCmp e.1 (idx.tuple p.2) = 0)
 
-/-- the result of `find` does not depend on the index set: it is the residual filter over all stored documents
-(statement only; follows from `plan_sound`, `partial_applicable_sound` and `index_inv`) -/
-def C11.find_index_independent_full : Prop :=
-  ∀ (ops : List Op) (f : Val), let s := run Uniflow.Index.init ops
+/-- the result of `find` is the reference filter over all stored documents, whatever indexes exist – after every history
+whose `Index` operations are over field names with well-formed filters (`GoodOps`, necessary: see `plan_sound`) -/
+def C11.find_scan_exact_full : Prop :=
+  ∀ (ops : List Op) (f : Val), GoodOps ops → let s := run Uniflow.Index.init ops
     wf f = true → find s (some f) = .ok ((s.docs.map (·.2)).filter fun d => refMatch (some (.map d)) f)
+
+/-- **find_index_independent**: two histories that perform the same Insert / Update / Delete / Find operations in the same
+order and differ only in the non-unique `Index` / `Unindex` operations interleaved with them – any number, at any
+points, single or compound, partial or not, or none at all – answer every one of those operations alike and end with the
+same stored documents. (`outs` = the answers of the data operations in order; a unique index is *meant* to change the
+outcome of the calls it rejects – that such a rejection leaves no trace is C12.) -/
+def C11.find_index_independent_full : Prop :=
+  ∀ (ops1 ops2 : List Op), (∀ op ∈ ops1, GoodOp op ∧ NonUniqueOp op) → (∀ op ∈ ops2, GoodOp op ∧ NonUniqueOp op) →
+    dataOps ops1 = dataOps ops2 →
+      outs Uniflow.Index.init ops1 = outs Uniflow.Index.init ops2 ∧
+      (run Uniflow.Index.init ops1).docs = (run Uniflow.Index.init ops2).docs
+
+/-- **index_inv**: after every history each index (with at least one key) holds exactly the stored documents its filter
+admits, under their key tuples: every leaf names a stored, admitted document and carries its tuple; every stored,
+admitted document has its leaf. -/
+theorem C11.index_inv : C11.index_inv_full := by
+  intro ops s idx hi _
+  have hf : Full s := Full_run ops Full_init
+  refine ⟨fun e he => ?_, fun p hp hadm => hf.complete idx hi ‹_› p hp hadm⟩
+  obtain ⟨d, hd, ht⟩ := hf.cons.exact idx hi e he
+  exact ⟨d, hd, hf.admitted idx hi e he d hd, ht⟩
+
+/-- **partial_applicable_sound**: the applicability rule of `explain` (repository commit 70b5313) is sound – when a
+partial index with the well-formed filter `φ` is deemed applicable to the query `f`, every document matching `f`
+satisfies `φ`, i.e. is in the index. -/
+theorem C11.partial_applicable_sound : C11.partial_applicable_sound_full :=
+  fun _ _ _ hw hi hm => implied_sound hw hi hm
+
+/-- the planned scan followed by the residual `match` returns exactly the matching documents, in id order -/
+theorem C11.find_scan_exact : C11.find_scan_exact_full := by
+  intro ops f hg s hw
+  exact find_ref (Full_run ops Full_init) (GoodState_run ops GoodState_init hg) hw
+
+/-- **find_index_independent** -/
+theorem C11.find_index_independent : C11.find_index_independent_full := by
+  intro ops1 ops2 h1 h2 hd
+  have r1 := run_strip ops1 Inv2_init Inv2_init rfl h1
+  have r2 := run_strip ops2 Inv2_init Inv2_init rfl h2
+  rw [r1.1, r1.2, r2.1, r2.2, hd]
+  exact ⟨rfl, rfl⟩
+
+/-- the statement is about real differences: a history with a compound partial index created before the data and dropped
+later, and the same data operations without any index -/
+theorem C11.find_index_independent_nonvacuous :
+    ∃ ops1 ops2, ops1 ≠ ops2 ∧ (∀ op ∈ ops1, GoodOp op ∧ NonUniqueOp op) ∧ (∀ op ∈ ops2, GoodOp op ∧ NonUniqueOp op) ∧
+      dataOps ops1 = dataOps ops2 ∧ (dataOps ops1).length = 2 := by
+  refine ⟨[.index [.str [97], .str [98]] false (some (.map (.cons (.str [98]) (.map (.cons (.str opGt) (.int .native 1) .nil)) .nil))),
+      .insert [.cons (.str [105, 100]) (.int .native 1) (.cons (.str [97]) (.int .native 7) .nil)],
+      .unindex [.str [97], .str [98]],
+      .find (some (.map (.cons (.str [97]) (.int .native 7) .nil))) none 0 0],
+    [.insert [.cons (.str [105, 100]) (.int .native 1) (.cons (.str [97]) (.int .native 7) .nil)],
+      .find (some (.map (.cons (.str [97]) (.int .native 7) .nil))) none 0 0], by simp, ?_, ?_, rfl, rfl⟩
+  · intro op hop
+    simp only [List.mem_cons, List.mem_nil_iff, or_false] at hop
+    rcases hop with rfl | rfl | rfl | rfl
+    · refine ⟨⟨fun k hk => ?_, fun φ h => ?_⟩, rfl⟩
+      · simp only [List.mem_cons, List.mem_nil_iff, or_false] at hk
+        rcases hk with rfl | rfl
+        · exact ⟨[97], rfl, by decide⟩
+        · exact ⟨[98], rfl, by decide⟩
+      · simp only [Option.some.injEq] at h; subst h; decide
+    all_goals exact ⟨trivial, trivial⟩
+  · intro op hop
+    simp only [List.mem_cons, List.mem_nil_iff, or_false] at hop
+    rcases hop with rfl | rfl <;> exact ⟨trivial, trivial⟩
